@@ -61,8 +61,8 @@ def gen(rng, tier):
                     nums = flat_op(w1) + flat_op(w2)
                     for opk in range(4):
                         out.append(Case("fuse", ty, "arr", "own", [2, opk, 0], nums, tag="grid4_exhaustive"))
-        for n in (2, 3, 4):
-            for i in range(nrand):
+        for n in (2, 3, 4, 5, 7):
+            for i in range(nrand if n <= 4 else max(8, nrand // 4)):
                 den = rng.choice([4, 8, 16, 64])
                 w1 = G.grid_opinion(rng, n, den)
                 w2 = G.grid_opinion(rng, n, den)
